@@ -202,9 +202,10 @@ Definition NU : nat := n_uptimes.
 Definition OwedI (d : bool) (w : rwd) (cur : Z) (P : list position) : Z := usum NU (fun u => zsum (owedU u d w cur) P).
 (* every listed position has a record in each uptime accumulator, with shares = liquidity *)
 Definition RMU (w : rwd) (P : list position) : Prop :=
-  forall u p, (u < NU)%nat -> In p P -> exists r, acc_get (acc_u u w) (ps_id p) = Some r /\ ar_shares r = ps_liq p.
+  forall u p, (u < NU)%nat -> In p P -> exists r, acc_get (acc_u u w) (ps_id p) = Some r /\ ar_shares r = ps_liq p /\
+    forall d, 0 <= dsel d (ar_unclaimed r).
 Lemma RMU_shares : forall w P u p, RMU w P -> (u < NU)%nat -> In p P -> sharesU u w p = ps_liq p.
-Proof. intros w P u p H Hu Hp. destruct (H u p Hu Hp) as [r [R S]]. unfold sharesU. rewrite R. exact S. Qed.
+Proof. intros w P u p H Hu Hp. destruct (H u p Hu Hp) as [r [R [S _]]]. unfold sharesU. rewrite R. exact S. Qed.
 
 Lemma sum_liq_zsum' : forall c P, sum_liq (f_range c) P = zsum (fun p => if in_rng (ps_lower p) (ps_upper p) c then ps_liq p else 0) P.
 Proof. induction P as [|p P IH]; simpl; [reflexivity|]. rewrite IH. unfold wt, f_range, in_rng. reflexivity. Qed.
